@@ -430,7 +430,12 @@ fn run_script(plan: &RunPlan) -> (Vec<String>, String, String) {
 }
 
 fn path_strategy() -> BoxedStrategy<Vec<u8>> {
-    proptest::collection::vec(0u8..SEGS.len() as u8, 1..=3).boxed()
+    prop_oneof![
+        60 => proptest::collection::vec(0u8..SEGS.len() as u8, 1..=3),
+        // cardinality tail: files below 39..60 nested directories
+        1 => (prop_oneof![Just(39usize), Just(40), Just(41), Just(42), Just(60)], 0u8..SEGS.len() as u8).prop_map(|(n, s)| vec![s; n]),
+    ]
+    .boxed()
 }
 
 fn cause(feat: &Features) -> &'static str {
